@@ -3,7 +3,8 @@
 (VERIF_REPO) so that /repo itself is never touched; C20 (which regenerates Lean facts) is run
 sequentially. Writes seeded/matrix.json."""
 import json, os, subprocess, sys, shutil, concurrent.futures as cf
-V = "/verif"
+V = os.environ.get("VERIF_DIR", "/verif")   # a snapshot copy may be used so that edits in /verif do not disturb a running matrix
+OUTV = "/verif"
 PROPS = [f"C{n:02d}" for n in range(1, 21)]
 PAR = [p for p in PROPS if p != "C20"]
 
@@ -56,10 +57,10 @@ def main():
             results[mid]["C20"] = {"rc": rc, "violations": len(v), "with_failing_input": sum("no-failing-input-found" not in l for l in v)}
         sh("git -C /repo checkout -- .")
     old = {}
-    if len(sys.argv) > 1 and os.path.exists(f"{V}/seeded/matrix.json"):
-        old = json.load(open(f"{V}/seeded/matrix.json"))
+    if len(sys.argv) > 1 and os.path.exists(f"{OUTV}/seeded/matrix.json"):
+        old = json.load(open(f"{OUTV}/seeded/matrix.json"))
     old.update(results)
-    json.dump(old, open(f"{V}/seeded/matrix.json", "w"), indent=1, sort_keys=True)
+    json.dump(old, open(f"{OUTV}/seeded/matrix.json", "w"), indent=1, sort_keys=True)
     for i in range(4):
         sh(f"git -C /repo worktree remove --force /tmp/wt/m{i}")
 
